@@ -134,8 +134,8 @@ def _cat() -> List[Edit]:
         E("C11", "prev-line-guard-removed", "node_visitor.py", "prev_line = lines[lineno - 2].strip() if lineno >= 2 else \"\"", "prev_line = lines[lineno - 2].strip()", "BREAK", "lines[lineno-2]"),
         E("C11", "enabled-check-first-again", "node_visitor.py", "        is_disabled = error_code is not None and not self.is_enabled(error_code)\n", "        is_disabled = error_code is not None and not self.is_enabled(error_code)\n        if is_disabled:\n            return None\n", "BREAK", "accounting-not-gated"),
         E("C11", "disabled-still-emitted", "node_visitor.py", "        if is_disabled:\n            return None\n\n        self.had_failure = True", "        self.had_failure = True", "BREAK", "gate-dominates"),
-        E("C11", "wrong-index-marked-used", "node_visitor.py", "                self.used_ignores.add(lineno - 2)\n                return", "                self.used_ignores.add(lineno - 1)\n                return", "BREAK", "ignore-return::prev_line"),
-        E("C11", "bare-form-matches-other-code", "node_visitor.py", "re.search(f\"{re.escape(ignore_comment)}(?!\\\\[)\", this_line)", "re.search(f\"{re.escape(ignore_comment)}\", this_line)", "BREAK", "this_line::bare-form"),
+        E("C11", "wrong-index-marked-used", "node_visitor.py", "                self.used_ignores.add(lineno - 2)\n                return", "                self.used_ignores.add(lineno - 1)\n                return", "BREAK", "ignore-return::lines[lineno - 2]"),
+        E("C11", "bare-form-matches-other-code", "node_visitor.py", "re.search(f\"{re.escape(ignore_comment)}(?!\\\\[)\", this_line)", "re.search(f\"{re.escape(ignore_comment)}\", this_line)", "BREAK", "lines[lineno - 1]::bare-form"),
         E("C11", "new-enabled-guard", "name_check_visitor.py", "    def visit_Break(self, node: ast.Break) -> None:\n", "    def visit_Break(self, node: ast.Break) -> None:\n        if not self.options.is_error_code_enabled(ErrorCode.bad_global):\n            return\n", "BREAK", "enabled-read::bad_global"),
     ]
     # ------------------------------------------------------------------ C12
